@@ -760,7 +760,7 @@ def cli(chk, drv, r, tier, work, S, pysam):
         if m_fr is None:
             if not all(math.isnan(x) for x in pri):
                 bad.append("AFPRIOR nan")
-        elif len(pri) != len(m_fr) or any(abs(x - y) > 6e-4 for x, y in zip(pri, m_fr)):
+        elif len(pri) != len(m_fr) or any(not (abs(x - y) <= 6e-4) for x, y in zip(pri, m_fr)):
             bad.append("AFPRIOR")
         if m_scen == "valid":
             m_n = int(parts[8])
